@@ -61,6 +61,9 @@ TEXT = {
     "C14": dict(technique="property-based testing (rapid) over generated histories in virtual time (testing/synctest bubble: the harness owns the clock) + a small wall-clock leg",
                 text="Histories of timed long / quick matches, idle gaps around the clock's lifetime, StopTimeoutClock and concurrent deadlines run against the unmodified clock code on a fake clock: timeout fires in [d-2ms, d+4ms], quick matches never time out and return at their work time, the clock goroutine is gone 1 s + 5 ms after the last deadline and after StopTimeoutClock, and restarts on demand. A wall-clock leg runs real catastrophic patterns through the real interpreter with lenient bounds, a scheduling-stall canary and 3-in-a-row confirmation.",
                 note="The virtual leg replaces the interpreter by a registered engine that polls CheckTimeout every 50 virtual microseconds; polling density of the real interpreter is only covered by the wall-clock leg. Liveness is checked as bounded-time safety.", ref="§6 C14"),
+    "C12": dict(technique="property-based testing (rapid state machine, t.Repeat): every call in a generated history vs the same call on a freshly compiled Regexp",
+                text="Histories of ~30 actions over 4 shared Regexps (balancing, bool-only program, backreference, stack limit 64, timeout, RightToLeft, replacement cache of 2, ...) x 13 entry points x inputs that match / fail / hit the limit / time out and cross the pooled-buffer size classes (1K/4K/16K runes) x 18 replacements: each outcome (canonical result or error class) equals the outcome on a fresh Regexp; probe calls re-check every shared Regexp.",
+                note="Timeout-involving outcomes are confirmed three times before being reported. Failing histories are replayed from fresh shared Regexps.", ref="§6 C12"),
 }
 
 PENDING = "check not built yet in this session (work in progress; see DESIGN.md section 6 for the planned generated-input check)"
